@@ -400,9 +400,11 @@ class C06Sqlite(calsim.CalSim):
         except BaseException as e:  # noqa: BLE001
             if isinstance(e, (KeyboardInterrupt, SystemExit)):
                 raise
-            if scn["prestate"] != "none" and mode == "raise" and interrupted:
-                res.add("sqlite-previous-checkpoint-lost", f"sqlite:{site.split(':')[0]}",
-                        f"{what}: the save failed, and afterwards the previous checkpoint cannot be loaded any more ({type(e).__name__}: {str(e)[:120]})")
+            if scn["prestate"] != "none" and interrupted:
+                # (transactional back-end: a save that failed - by an exception or because its process died before the commit -
+                # leaves the previous checkpoint loadable; after a death *at or after* the commit the new one loads, never an error)
+                res.add("sqlite-previous-checkpoint-lost", f"sqlite:{mode}:{site.split(':')[0]}",
+                        f"{what}: the save did not complete, and afterwards no checkpoint can be loaded any more ({type(e).__name__}: {str(e)[:120]})")
             res.stats["sqlite-outcome:error"] += 1
             return
         if same(loaded, new_args):
@@ -439,8 +441,8 @@ class C06(Check):
         cfg["N"] = rng.choice([6, 10])
         cfg["sim_length"] = None
         cfg["model"]["D"] = rng.randint(1, 2)
-        if cfg["loss"]["opts"].get("weights"):
-            cfg["loss"]["opts"].pop("weights")
+        cfg["loss"]["opts"].pop("weights", None)
+        cfg["loss"]["opts"].pop("filters", None)
         if cfg["loss"]["cls"] == "msm":
             cfg["N"] = 12
         cfg["ensemble"] = rng.randint(1, 2)
